@@ -476,7 +476,12 @@ func (r *runner) judgeStep(sp StepPlan, se []Event, tag string) {
 			r.violate("C03", "C03.a", "returns-other-error", "the failing provider's own error value", obs, where)
 		}
 		if !ret.Zero {
-			r.violate("C03", "C03.b", "non-zero-result-on-error", "zero value", "non-zero value", where)
+			disc := "non-zero-result-on-error"
+			if r.resultKind(sp.Inj) == "bool" && r.injPkgHasDecoy(sp.Inj, "falseconst") {
+				// the generated `return false, ...` names the package's own constant: an open finding of its own
+				disc += "/bool-result-in-a-package-that-redeclares-false"
+			}
+			r.violate("C03", "C03.b", disc, "zero value", "non-zero value", where)
 		}
 		if ret.HasC && !ret.CNil {
 			r.violate("C03", "C03.c", "non-nil-cleanup-on-error", "nil cleanup", "non-nil cleanup", where)
@@ -629,6 +634,15 @@ func (r *runner) judgeStep(sp StepPlan, se []Event, tag string) {
 			}
 		}
 	}
+}
+
+func (r *runner) injPkgHasDecoy(key, decoy string) bool {
+	for _, inj := range r.c.Module.Injectors {
+		if r.c.Module.InjKey(inj) == key {
+			return progen.HasDecoy(r.c.Module.Pkgs[inj.Pkg], decoy)
+		}
+	}
+	return false
 }
 
 func (r *runner) resultKind(key string) string {
